@@ -274,6 +274,7 @@ class MultiTanProcessor(object):
 
     def _tile_parallel(self, pio, cli_progress, parallel, **kwargs):
         import multiprocessing as mp
+        from .par_util import finish_work_queue, put_work_item
 
         # Start up the workers
 
@@ -293,13 +294,12 @@ class MultiTanProcessor(object):
 
         with progress_bar(total=len(self._descs), show=cli_progress) as progress:
             for image, desc in zip(self._collection.images(), self._descs):
-                queue.put((image, desc))
+                put_work_item(queue, (image, desc), workers, "parallel tiling")
                 progress.update(1)
 
         # Finish up
 
-        queue.close()
-        queue.join_thread()
+        finish_work_queue(queue, workers, "parallel tiling")
         done_event.set()
 
         for w in workers:
